@@ -23,6 +23,8 @@ def run(ctx, rep):
     exceptions.rule_catchable_classes(ctx, rep, "C07-R5")
     exceptions.rule_source_map_per_function(ctx, rep, "C07-R6")
     exceptions.rule_constructor_names(ctx, rep, "C07-R7")
+    exceptions.rule_error_prototype_chain(ctx, rep, "C07-R8")
+    exceptions.rule_uncaught_keeps_name(ctx, rep, "C07-R9")
     rep.undecided += [
         "the ordered log of catch/finally execution for all programs",
         "that reported line/column values are the right numbers",
